@@ -245,6 +245,20 @@ def sweeps(tier, rng):
     for ms, ws_ in ((["leastsq"], ["unity", "modulus", "boukamp"]), (["leastsq", "nelder"], ["unity", "modulus", "boukamp"]),
                     (["leastsq", "nelder", "powell"], ["boukamp"]), (["leastsq"], "auto"), ("auto", ["unity", "proportional"])):
         combos.append(("fit_circuit", pyimpspec.fit_circuit, dict(circuit=parse_cdc("R(RC)"), data=small, method=ms, weight=ws_, max_nfev=30, num_procs=1)))
+    # undocumented option values, alone and inside lists: outside the property's quantifier (documented values), but an unknown name must
+    # not surface part-way as an unhandled lookup error either; kept for the entry points that refuse them up front on the unchanged tree
+    # (perform_kramers_kronig_test(test=<unknown>) is refused only after its progress has started, with a descriptive ValueError: not included)
+    bogus = [("fit_circuit", pyimpspec.fit_circuit, dict(circuit=parse_cdc("R(RC)"), data=small, method="leastsq", weight=["modulus", "bogus"], max_nfev=30, num_procs=1)),
+             ("fit_circuit", pyimpspec.fit_circuit, dict(circuit=parse_cdc("R(RC)"), data=small, method=["leastsq", "bogus"], weight="boukamp", max_nfev=30, num_procs=1)),
+             ("fit_circuit", pyimpspec.fit_circuit, dict(circuit=parse_cdc("R(RC)"), data=small, method="bogus", weight="bogus", max_nfev=30, num_procs=1)),
+             ("fit_circuit", pyimpspec.fit_circuit, dict(circuit=parse_cdc("R(RC)"), data=small, method=[], weight=["boukamp"], max_nfev=30, num_procs=1)),
+             ("perform_zhit", pyimpspec.perform_zhit, dict(data=data, smoothing="bogus", num_procs=1)),
+             ("perform_zhit", pyimpspec.perform_zhit, dict(data=data, interpolation="bogus", num_procs=1)),
+             ("perform_zhit", pyimpspec.perform_zhit, dict(data=data, window="bogus", num_procs=1)),
+             ("calculate_drt[bogus]", pyimpspec.calculate_drt, dict(data=data, method="bogus")),
+             ("calculate_drt[tr-nnls]", pyimpspec.calculate_drt, dict(data=data, method="tr-nnls", mode="bogus")),
+             ("calculate_drt[lm]", pyimpspec.calculate_drt, dict(data=data, method="lm", model_order_method="bogus", num_procs=1))]
+    combos += bogus
     combos.append(("perform_zhit", pyimpspec.perform_zhit, dict(data=small, num_procs=1)))
     combos.append(("perform_kramers_kronig_test", pyimpspec.perform_kramers_kronig_test, dict(data=small, num_procs=1)))
     return combos
